@@ -139,6 +139,43 @@ def replay_companion(vals, oid):
                     bad.append({"have": have, "handed": handed, "file_bin": str(sr.file_bin)})
             finally:
                 shutil.rmtree(d, ignore_errors=True)
+    # companions named with a UUID (as on the data server) while the data file has none, both bands of the probe in the same folder:
+    # each band must resolve to its own header / metadata and open as its own recording
+    for uuid_on in ("companions", "all", "none"):
+        d = tempfile.mkdtemp(prefix="c02_")
+        try:
+            U1, U2 = "4f6f1c1b-a17c-4a38-b1a2-3c5f0a9e2b11", "9c2d7e55-0b44-4e0a-8f3e-7d1a6b5c4d22"
+            recs = {}
+            for band, ns, fs, uu in (("ap", 3100, 30000.0, U1), ("lf", 260, 2500.0, U2)):
+                sub = os.path.join(d, "tmp_" + band)
+                os.makedirs(sub)
+                files = _mk_pair(sub, ns, 385, np.random.default_rng(1 if band == "ap" else 2), keep=("cbin",))
+                lines_ = [(f"imSampRate={fs:g}" if ln.startswith("imSampRate=") else f"fileTimeSecs={ns / fs:.10f}" if ln.startswith("fileTimeSecs=") else ln) for ln in open(files["meta"]).read().splitlines()]
+                open(files["meta"], "w").write("\n".join(lines_) + "\n")
+                stem = f"rec.imec1.{band}"
+                for ext in ("cbin", "ch", "meta"):
+                    src = os.path.join(sub, f"rec.imec1.ap.{ext}")
+                    withu = uuid_on == "all" or (uuid_on == "companions" and ext != "cbin")
+                    dst = os.path.join(d, f"{stem}.{uu}.{ext}" if withu else f"{stem}.{ext}")
+                    os.rename(src, dst)
+                    recs.setdefault(band, {})[ext] = dst
+                recs[band]["ns"], recs[band]["fs"], recs[band]["D"] = ns, fs, files["D"]
+                shutil.rmtree(sub, ignore_errors=True)
+            for band in ("ap", "lf"):
+                r = recs[band]
+                got = {ext: str(spikeglx._get_companion_file(r["cbin"], "." + ext)) for ext in ("ch", "meta")}
+                if got != {"ch": r["ch"], "meta": r["meta"]}:
+                    bad.append({"uuid_in_names_of": uuid_on, "band": band, "companions_found": {k: os.path.basename(v) for k, v in got.items()}})
+                    continue
+                sr = spikeglx.Reader(r["cbin"], sort=False)
+                okr = sr.shape == (r["ns"], 385) and sr.fs == r["fs"] and np.array_equal(sr._raw[5:40, :], r["D"][5:40, :])
+                sr.close()
+                if not okr:
+                    bad.append({"uuid_in_names_of": uuid_on, "band": band, "shape": sr.shape, "fs": sr.fs})
+        except Exception as e:
+            bad.append({"uuid_in_names_of": uuid_on, "raised": repr(e)[:160]})
+        finally:
+            shutil.rmtree(d, ignore_errors=True)
     return {"failed": bool(bad), "cases": bad}
 
 
@@ -473,3 +510,8 @@ def b_retry(B):
                 B.case(("scratch_retry", with_dir, fail_at), raised and ok1 and ok2, detail={"first_attempt_raised": raised, "final_name_clean_after_failure": ok1, "complete_after_retry": ok2})
             finally:
                 shutil.rmtree(d, ignore_errors=True)
+
+
+# ----------------------------------------------------------------------------- contracts of dependencies this property rests on (re-checked here)
+from pyvc.api import depends  # noqa: E402
+depends(PROPERTY, "C11", ["open_cbin", "open_int16"])      # same shape through .bin and .cbin: both branches of Reader.open expose the samples present
